@@ -229,6 +229,7 @@ def domOf (r : Except String State) : Dom := match r with | .ok s => s.dom | .er
 
 def okRun (r : Except String State) : Bool := match r with | .ok _ => true | .error _ => false
 
+
 def eofOnly : List (TokToken × Nat) := [(.eof, 1)]
 
 /-- For every option set, a document that consists of EOF alone gets `html`, `head` and `body`
@@ -238,13 +239,10 @@ _partial: the same closure from every other insertion mode / every reachable sta
 (finite instances below, the general case by the oracle on the real code). -/
 theorem C06_eof_closure_initial_partial (opts : Opts) :
     okRun (parseTokens opts eofOnly) = true ∧ Skeleton (domOf (parseTokens opts eofOnly)) ∧
-    (domOf (parseTokens opts eofOnly)).dump =
-      "(doc(el,~/68 74 74 70 3a 2f 2f 77 77 77 2e 77 33 2e 6f 72 67 2f 31 39 39 39 2f 78 68 74 6d 6c/68 74 6d 6c,-,-"
-      ++ "(el,~/68 74 74 70 3a 2f 2f 77 77 77 2e 77 33 2e 6f 72 67 2f 31 39 39 39 2f 78 68 74 6d 6c/68 65 61 64,-,-)"
-      ++ "(el,~/68 74 74 70 3a 2f 2f 77 77 77 2e 77 33 2e 6f 72 67 2f 31 39 39 39 2f 78 68 74 6d 6c/62 6f 64 79,-,-)))"
-      ++ (if opts.iframeSrcdoc then
-            (match opts.quirksMode with | .quirks => ";Q=quirks" | .limitedQuirks => ";Q=limited" | .noQuirks => ";Q=no")
-          else ";Q=quirks") := by
+    htmlOf (domOf (parseTokens opts eofOnly)) = some 1 ∧
+    (domOf (parseTokens opts eofOnly)).childrenOf 1 = [2, 3] ∧
+    (domOf (parseTokens opts eofOnly)).quirks =
+      (if opts.iframeSrcdoc then opts.quirksMode else .quirks) := by
   obtain ⟨e, sc, sd, dd, q⟩ := opts
   cases e <;> cases sc <;> cases sd <;> cases dd <;> cases q <;> decide +kernel
 
@@ -277,32 +275,5 @@ theorem C06_frameset_skeleton_example :
       sTag "noframes", txt "n", eTag "noframes", eTag "html", (.comment "c".toList, 1), (.eof, 1)])) := by
   decide +kernel
 
--- non-vacuity of the predicate: it rejects trees that break a clause
-section
-def qn (s : String) : QualName := { ns := nsHtml, loc := s.toList }
-def build (ops : List SinkOp) : Dom := match Dom.new.applyAll ops with | .ok (d, _) => d | .error _ => Dom.new
-/-- html without body -/
-example : ¬ Skeleton (build [.createElement (qn "html") [] {}, .append 0 (.node 1),
-    .createElement (qn "head") [] {}, .append 1 (.node 2)]) := by decide +kernel
-/-- text under the document -/
-example : ¬ Skeleton (build [.append 0 (.text ['x']), .createElement (qn "html") [] {}, .append 0 (.node 2),
-    .createElement (qn "head") [] {}, .append 1 (.node 3), .createElement (qn "body") [] {}, .append 1 (.node 4)]) := by
-  decide +kernel
-/-- two adjacent text siblings (exposed by `remove_from_parent`) -/
-example : ¬ Skeleton (build [.createElement (qn "html") [] {}, .append 0 (.node 1),
-    .createElement (qn "head") [] {}, .append 1 (.node 2), .createElement (qn "body") [] {}, .append 1 (.node 3),
-    .append 3 (.text ['a']), .createElement (qn "b") [] {}, .append 3 (.node 5), .append 3 (.text ['c']),
-    .removeFromParent 5]) := by decide +kernel
-/-- the same tree before the removal is fine -/
-example : Skeleton (build [.createElement (qn "html") [] {}, .append 0 (.node 1),
-    .createElement (qn "head") [] {}, .append 1 (.node 2), .createElement (qn "body") [] {}, .append 1 (.node 3),
-    .append 3 (.text ['a']), .createElement (qn "b") [] {}, .append 3 (.node 5), .append 3 (.text ['c'])]) := by
-  decide +kernel
-/-- non-vacuity of `C06_no_adjacent_text_run_partial` -/
-example : ∃ d', SafeRun Dom.new [.createElement (qn "p") [] {}, .append 0 (.node 1), .append 1 (.text ['a']),
-    .append 1 (.text ['b'])] d' ∧ d'.childrenOf 1 = [2] :=
-  ⟨_, .cons (by decide +kernel) trivial rfl (.cons (by decide +kernel) trivial rfl (.cons (by decide +kernel) trivial rfl
-    (.cons (by decide +kernel) trivial rfl .nil))), by decide +kernel⟩
-end
 
 end H5V.Props.C06
